@@ -23,3 +23,4 @@ def rules(ctx):
     # eviction I/O happens inside flush_lowest_priority, i.e. under the stripe lock the caller holds
     S.c08_r1_one_door(ctx)
     S.untracked_allocation_rules(ctx)
+    S.snapshot_atomic_rules(ctx)
